@@ -42,6 +42,9 @@ type sourceFragment struct {
 	// Predicates that became known with this fragment. The program info also
 	// lists the declarations of earlier fragments, which stay when this one is popped.
 	introduced []ast.PredicateSym
+	// Declarations of earlier fragments that this fragment replaced (a Decl for a
+	// predicate that was defined without one); they come back when it is popped.
+	replaced map[ast.PredicateSym]ast.Decl
 }
 
 // Interpreter is an interactive interpreter.
@@ -202,7 +205,12 @@ func (i *Interpreter) Load(pathset string) error {
 }
 
 func (i *Interpreter) pushLoadedFragment(pathset string, units []parse.SourceUnit) error {
-	programInfo, err := analysis.AnalyzeAndCheckBounds(units, i.knownPredicates, analysis.ErrorForBoundsMismatch)
+	// The analysis removes entries that the units redeclare from the map it is given.
+	known := make(map[ast.PredicateSym]ast.Decl, len(i.knownPredicates))
+	for sym, decl := range i.knownPredicates {
+		known[sym] = decl
+	}
+	programInfo, err := analysis.AnalyzeAndCheckBounds(units, known, analysis.ErrorForBoundsMismatch)
 	if err != nil {
 		return err
 	}
@@ -307,6 +315,9 @@ func (i *Interpreter) Define(clauseText string) error {
 	if i.hasInteractiveDefs() {
 		for _, sym := range i.sourceFragments[interactivePath].introduced {
 			delete(known, sym)
+		}
+		for sym, decl := range i.sourceFragments[interactivePath].replaced {
+			known[sym] = decl
 		}
 	}
 	programInfo, err := analysis.AnalyzeOneUnit(unit, known)
@@ -426,12 +437,15 @@ func (i *Interpreter) Preload(units []parse.SourceUnit, store factstore.FactStor
 func (i *Interpreter) pushSourceFragment(pathset string, units []parse.SourceUnit, programInfo *analysis.ProgramInfo) {
 	i.src = append(i.src, pathset)
 	var introduced []ast.PredicateSym
+	replaced := make(map[ast.PredicateSym]ast.Decl)
 	for _, decl := range programInfo.Decls {
-		if _, known := i.knownPredicates[decl.DeclaredAtom.Predicate]; !known {
+		if old, known := i.knownPredicates[decl.DeclaredAtom.Predicate]; known {
+			replaced[decl.DeclaredAtom.Predicate] = old
+		} else {
 			introduced = append(introduced, decl.DeclaredAtom.Predicate)
 		}
 	}
-	i.sourceFragments[pathset] = &sourceFragment{units, programInfo, i.simpleStore, i.temporalStore, introduced}
+	i.sourceFragments[pathset] = &sourceFragment{units, programInfo, i.simpleStore, i.temporalStore, introduced, replaced}
 	for _, decl := range programInfo.Decls {
 		i.knownPredicates[decl.DeclaredAtom.Predicate] = *decl
 	}
@@ -474,6 +488,9 @@ func (i *Interpreter) popSourceFragment() *sourceFragment {
 	delete(i.sourceFragments, path)
 	for _, sym := range f.introduced {
 		delete(i.knownPredicates, sym)
+	}
+	for sym, decl := range f.replaced {
+		i.knownPredicates[sym] = decl
 	}
 	i.simpleStore = f.simpleCheckpoint
 	i.temporalStore = f.temporalCheckpoint
